@@ -1,4 +1,410 @@
 /-
-C01 — placeholder (theorems follow)
+C01/C02 — the equation system computes the sums over derivations: Kleene iteration F^n(0) equals,
+cell by cell, the sum over all derivations of depth ≤ n (and all assignments) of the product of weights.
+Theorems about `Fggs.Sem` (FggsModel/Sem.lean).
 -/
 import FggsModel.Sem
+import Mathlib.Tactic.Linarith
+import Mathlib.Data.List.Basic
+import Mathlib.Data.List.Forall2
+import Mathlib.Tactic.Ring
+
+set_option linter.unusedSimpArgs false
+set_option linter.unusedVariables false
+
+namespace C01
+open Fggs Fggs.Sem
+
+/-- commutative-semiring laws for a semiring record -/
+structure SRLaws {K : Type} (S : SR K) : Prop where
+  add_assoc : ∀ a b c, S.add (S.add a b) c = S.add a (S.add b c)
+  add_comm : ∀ a b, S.add a b = S.add b a
+  zero_add : ∀ a, S.add S.zero a = a
+  mul_assoc : ∀ a b c, S.mul (S.mul a b) c = S.mul a (S.mul b c)
+  mul_comm : ∀ a b, S.mul a b = S.mul b a
+  one_mul : ∀ a, S.mul S.one a = a
+  zero_mul : ∀ a, S.mul S.zero a = S.zero
+  left_distrib : ∀ a b c, S.mul a (S.add b c) = S.add (S.mul a b) (S.mul a c)
+
+variable {K : Type}
+
+/-! ### algebra toolkit -/
+section toolkit
+variable {S : SR K} (hS : SRLaws S)
+include hS
+
+private theorem add_zero (a : K) : S.add a S.zero = a := by rw [hS.add_comm, hS.zero_add]
+private theorem mul_one (a : K) : S.mul a S.one = a := by rw [hS.mul_comm, hS.one_mul]
+private theorem mul_zero (a : K) : S.mul a S.zero = S.zero := by rw [hS.mul_comm, hS.zero_mul]
+private theorem right_distrib (a b c : K) : S.mul (S.add a b) c = S.add (S.mul a c) (S.mul b c) := by
+  rw [hS.mul_comm, hS.left_distrib, hS.mul_comm c a, hS.mul_comm c b]
+
+private theorem foldl_add (l : List K) (a : K) : l.foldl S.add a = S.add a (S.sum l) := by
+  induction l generalizing a with
+  | nil => simp [SR.sum, add_zero hS]
+  | cons b l ih =>
+    simp only [SR.sum, List.foldl_cons]
+    rw [ih, ih (S.add S.zero b), hS.zero_add, hS.add_assoc]
+
+omit hS in
+private theorem sum_nil' : S.sum ([] : List K) = S.zero := rfl
+
+private theorem sum_cons (a : K) (l : List K) : S.sum (a :: l) = S.add a (S.sum l) := by
+  show (a :: l).foldl S.add S.zero = _
+  rw [List.foldl_cons, foldl_add hS, hS.zero_add]
+
+private theorem sum_singleton (a : K) : S.sum [a] = a := by
+  rw [sum_cons hS, sum_nil', add_zero hS]
+
+private theorem sum_append (l₁ l₂ : List K) : S.sum (l₁ ++ l₂) = S.add (S.sum l₁) (S.sum l₂) := by
+  induction l₁ with
+  | nil => simp [sum_nil', hS.zero_add]
+  | cons a l ih => rw [List.cons_append, sum_cons hS, sum_cons hS, ih, hS.add_assoc]
+
+private theorem sum_flatMap {α : Type} (l : List α) (g : α → List K) :
+    S.sum (l.flatMap g) = S.sum (l.map (fun x => S.sum (g x))) := by
+  induction l with
+  | nil => rfl
+  | cons a l ih => rw [List.flatMap_cons, sum_append hS, List.map_cons, sum_cons hS, ih]
+
+private theorem sum_map_zero {α : Type} (l : List α) : S.sum (l.map (fun _ => S.zero)) = S.zero := by
+  induction l with
+  | nil => rfl
+  | cons a l ih => rw [List.map_cons, sum_cons hS, ih, hS.zero_add]
+
+private theorem sum_map_add {α : Type} (l : List α) (f g : α → K) :
+    S.sum (l.map (fun x => S.add (f x) (g x))) = S.add (S.sum (l.map f)) (S.sum (l.map g)) := by
+  induction l with
+  | nil => simp [sum_nil', hS.zero_add]
+  | cons a l ih =>
+    simp only [List.map_cons, sum_cons hS, ih]
+    rw [hS.add_assoc, hS.add_assoc, ← hS.add_assoc (g a), ← hS.add_assoc (S.sum (l.map f)),
+      hS.add_comm (g a)]
+
+private theorem sum_comm {α β : Type} (l₁ : List α) (l₂ : List β) (f : α → β → K) :
+    S.sum (l₁.map (fun x => S.sum (l₂.map (fun y => f x y)))) =
+    S.sum (l₂.map (fun y => S.sum (l₁.map (fun x => f x y)))) := by
+  induction l₁ with
+  | nil => simp only [List.map_nil, sum_nil', sum_map_zero hS]
+  | cons a l ih =>
+    simp only [List.map_cons, sum_cons hS, ih]
+    rw [sum_map_add hS]
+
+private theorem sum_mul_left (c : K) (l : List K) : S.mul c (S.sum l) = S.sum (l.map (S.mul c)) := by
+  induction l with
+  | nil => simp [sum_nil', mul_zero hS]
+  | cons a l ih => rw [List.map_cons, sum_cons hS, sum_cons hS, hS.left_distrib, ih]
+
+private theorem sum_mul_right (c : K) (l : List K) :
+    S.mul (S.sum l) c = S.sum (l.map (fun x => S.mul x c)) := by
+  induction l with
+  | nil => simp [sum_nil', hS.zero_mul]
+  | cons a l ih => rw [List.map_cons, sum_cons hS, sum_cons hS, right_distrib hS, ih]
+
+private theorem foldl_mul (l : List K) (c : K) : l.foldl S.mul c = S.mul c (S.prod l) := by
+  induction l generalizing c with
+  | nil => simp [SR.prod, mul_one hS]
+  | cons b l ih =>
+    simp only [SR.prod, List.foldl_cons]
+    rw [ih, ih (S.mul S.one b), hS.one_mul, hS.mul_assoc]
+
+end toolkit
+
+/-! ### index arithmetic -/
+
+private theorem foldl_mul_nat (l : List Nat) (a : Nat) : l.foldl (· * ·) a = a * l.foldl (· * ·) 1 := by
+  induction l generalizing a with
+  | nil => simp
+  | cons b l ih => simp only [List.foldl_cons]; rw [ih, ih (1 * b)]; ring
+
+private theorem numel_cons (n : Nat) (rest : List Nat) : numel (n :: rest) = n * numel rest := by
+  unfold numel; rw [List.foldl_cons, foldl_mul_nat]; ring
+
+private theorem length_flatMap_uniform {α β : Type} (l : List α) (g : α → List β) (m : Nat)
+    (hg : ∀ x ∈ l, (g x).length = m) : (l.flatMap g).length = l.length * m := by
+  induction l with
+  | nil => simp
+  | cons a l ih =>
+    rw [List.flatMap_cons, List.length_append, ih (fun x hx => hg x (List.mem_cons_of_mem _ hx)),
+      hg a (List.mem_cons_self ..), List.length_cons]; ring
+
+private theorem length_assigns (shape : List Nat) : (assigns shape).length = numel shape := by
+  induction shape with
+  | nil => rfl
+  | cons n rest ih =>
+    rw [assigns, length_flatMap_uniform _ _ (numel rest) (by intro x _; simp [ih]), numel_cons]
+    simp
+
+private theorem getElem?_flatMap_uniform {α β : Type} (l : List α) (g : α → List β) (m : Nat)
+    (hg : ∀ x ∈ l, (g x).length = m) (i j : Nat) (hj : j < m) (x : α) (hi : l[i]? = some x) :
+    (l.flatMap g)[i * m + j]? = (g x)[j]? := by
+  induction l generalizing i with
+  | nil => simp at hi
+  | cons a l ih =>
+    have ha := hg a (List.mem_cons_self ..)
+    rw [List.flatMap_cons]
+    cases i with
+    | zero =>
+      simp only [List.getElem?_cons_zero, Option.some.injEq] at hi
+      subst hi
+      rw [List.getElem?_append_left (by omega)]; simp
+    | succ i =>
+      simp only [List.getElem?_cons_succ] at hi
+      rw [List.getElem?_append_right (by rw [ha]; nlinarith)]
+      rw [← ih (fun x hx => hg x (List.mem_cons_of_mem _ hx)) i hi]
+      congr 1; rw [ha]; ring_nf; omega
+
+private theorem mem_assigns {shape a : List Nat} :
+    a ∈ assigns shape ↔ List.Forall₂ (· < ·) a shape := by
+  induction shape generalizing a with
+  | nil => simp [assigns]
+  | cons n rest ih =>
+    simp only [assigns, List.mem_flatMap, List.mem_range, List.mem_map]
+    constructor
+    · rintro ⟨i, hi, is, his, rfl⟩
+      exact List.Forall₂.cons hi (ih.1 his)
+    · intro h
+      cases h with
+      | cons hi his => exact ⟨_, hi, _, ih.2 his, rfl⟩
+
+private theorem flat_lt {shape a : List Nat} (h : List.Forall₂ (· < ·) a shape) :
+    flat shape a < numel shape := by
+  induction h with
+  | nil => simp [flat, numel]
+  | @cons i n is rest hi his ih =>
+    rw [flat, numel_cons]
+    calc i * numel rest + flat rest is < i * numel rest + numel rest := by omega
+      _ = (i + 1) * numel rest := by ring
+      _ ≤ n * numel rest := Nat.mul_le_mul_right _ hi
+
+private theorem getElem?_assigns {shape a : List Nat} (h : List.Forall₂ (· < ·) a shape) :
+    (assigns shape)[flat shape a]? = some a := by
+  induction h with
+  | nil => simp [flat, assigns]
+  | @cons i n is rest hi his ih =>
+    rw [flat, assigns, ← length_assigns]
+    rw [getElem?_flatMap_uniform _ _ (assigns rest).length (by intro x _; simp) i _
+      (by rw [length_assigns]; exact flat_lt his) i (by simp [hi])]
+    rw [List.getElem?_map, ih]; rfl
+
+/-- the cell of a nonterminal's value (absent value = zero tensor) -/
+def valCell (S : SR K) (G : Grammar K) (v : Val K) (X : Nat) (a : List Nat) : K :=
+  match v[X]?.join with
+  | some t => getT S t (G.shapeOf (G.nts[X]?.getD [])) a
+  | none => S.zero
+
+/-- reading the row-major tensor built from a function at a valid index gives the function's value -/
+theorem getT_assigns_map (S : SR K) (shape : List Nat) (f : List Nat → K) (a : List Nat)
+    (ha : a ∈ assigns shape) : getT S ((assigns shape).map f) shape a = f a := by
+  unfold getT
+  rw [List.getElem?_map, getElem?_assigns (mem_assigns.1 ha)]; rfl
+
+private theorem foldl_addT_cell {α : Type} (S : SR K) (rs : List α) (tv : α → List K) (cell : α → K)
+    (m k : Nat) (hk : k < m) (z : List K) (hz : z.length = m)
+    (h : ∀ r ∈ rs, (tv r).length = m ∧ (tv r)[k]?.getD S.zero = cell r) :
+    (rs.foldl (fun acc r => addT S acc (tv r)) z)[k]?.getD S.zero =
+      rs.foldl (fun acc r => S.add acc (cell r)) (z[k]?.getD S.zero) := by
+  induction rs generalizing z with
+  | nil => rfl
+  | cons r rs ih =>
+    obtain ⟨h1, h2⟩ := h r (List.mem_cons_self ..)
+    rw [List.foldl_cons, List.foldl_cons, ih _ (by simp [addT, hz, h1])
+      (fun r hr => h r (List.mem_cons_of_mem _ hr))]
+    congr 1
+    rw [← h2]
+    have hk1 : k < z.length := by omega
+    have hk2 : k < (tv r).length := by omega
+    simp [addT, List.getElem?_zipWith, List.getElem?_eq_getElem hk1, List.getElem?_eq_getElem hk2]
+
+/-- one unfolding: `F(x)[X][a] = Σ_{rules r of X} ruleCell r a` -/
+theorem F_cell (S : SR K) (hS : SRLaws S) (G : Grammar K) (x : Val K) (X : Nat) (hX : X < G.nts.length)
+    (a : List Nat) (ha : a ∈ assigns (G.shapeOf (G.nts[X]?.getD [])))
+    (hshape : ∀ r ∈ G.rulesOf X, G.shapeOf (r.ext.map (fun v => r.nodes[v]?.getD 0)) = G.shapeOf (G.nts[X]?.getD [])) :
+    valCell S G (F S G x) X a = S.sum ((G.rulesOf X).map (fun r => ruleCell S G x r a)) := by
+  have hlt := flat_lt (mem_assigns.1 ha)
+  unfold valCell F
+  rw [List.getElem?_map, List.getElem?_range hX]
+  simp only [Option.map_some, Option.join_some]
+  unfold getT
+  rw [foldl_addT_cell S _ _ (fun r => ruleCell S G x r a) _ _ hlt _ (by simp)]
+  · rw [SR.sum, List.foldl_map]
+    congr 1
+    simp [List.getElem?_replicate, hlt]
+  · intro r hr
+    unfold ruleValue
+    rw [hshape r hr]
+    refine ⟨by simp [length_assigns], ?_⟩
+    exact getT_assigns_map S _ _ a ha
+
+/-! ### main theorem -/
+
+private def stepFn (S : SR K) (G : Grammar K) (fuel : Nat) (ρ : List Nat) :
+    K × List Deriv → Nat × List Nat → K × List Deriv :=
+  fun acc e =>
+    let idx := e.2.map (fun v => ρ[v]?.getD 0)
+    if e.1 < G.T then (S.mul acc.1 (edgeWeight S G [] e.1 idx), acc.2)
+    else match acc.2 with
+      | c :: rest => (S.mul acc.1 (derivCell S G fuel c idx), rest)
+      | [] => (S.mul acc.1 S.zero, [])
+
+private theorem derivCell_succ (S : SR K) (G : Grammar K) (fuel ri : Nat) (cs : List Deriv) (a : List Nat) :
+    derivCell S G (fuel+1) (.mk ri cs) a =
+      S.sum (((assigns (G.shapeOf (G.rules[ri]?.getD default).nodes)).filter
+        (fun ρ => (G.rules[ri]?.getD default).ext.map (fun v => ρ[v]?.getD 0) == a)).map (fun ρ =>
+          ((G.rules[ri]?.getD default).edges.foldl (stepFn S G fuel ρ) (S.one, cs)).1)) := by
+  rw [derivCell]; rfl
+
+private theorem edgeWeight_term (S : SR K) (G : Grammar K) (x : Val K) (l : Nat) (idx : List Nat)
+    (h : l < G.T) : edgeWeight S G x l idx = edgeWeight S G [] l idx := by
+  simp [edgeWeight, h]
+
+private theorem edgeWeight_nt (S : SR K) (G : Grammar K) (x : Val K) (l : Nat) (idx : List Nat)
+    (h : ¬ l < G.T) : edgeWeight S G x l idx = valCell S G x (l - G.T) idx := by
+  simp only [edgeWeight, valCell, Grammar.labelType, h, if_false]
+  rfl
+
+private theorem core (S : SR K) (hS : SRLaws S) (G : Grammar K) (x : Val K) (n : Nat) (ρ : List Nat)
+    (es : List (Nat × List Nat))
+    (hnt : ∀ e ∈ es, ¬ e.1 < G.T → edgeWeight S G x e.1 (e.2.map (fun v => ρ[v]?.getD 0)) =
+        S.sum ((derivs G n (e.1 - G.T)).map
+          (fun d => derivCell S G n d (e.2.map (fun v => ρ[v]?.getD 0)))))
+    (c : K) :
+    S.sum ((tuples ((es.filter (fun e => e.1 ≥ G.T)).map (fun e => derivs G n (e.1 - G.T)))).map
+      (fun cs => (es.foldl (stepFn S G n ρ) (c, cs)).1)) =
+    (es.map (fun e => edgeWeight S G x e.1 (e.2.map (fun v => ρ[v]?.getD 0)))).foldl S.mul c := by
+  induction es generalizing c with
+  | nil => simp [tuples, sum_singleton hS]
+  | cons e es ih =>
+    have ih' := ih (fun e he => hnt e (List.mem_cons_of_mem _ he))
+    by_cases h : e.1 < G.T
+    · have hd : (e :: es).filter (fun e => decide (e.1 ≥ G.T)) = es.filter (fun e => decide (e.1 ≥ G.T)) :=
+        List.filter_cons_of_neg (by simpa using h)
+      rw [hd, List.map_cons, List.foldl_cons, ← ih']
+      congr 1
+      apply List.map_congr_left
+      intro cs _
+      rw [List.foldl_cons]
+      congr 2
+      simp only [stepFn, h, if_true]
+      rw [edgeWeight_term S G x _ _ h]
+    · have hd : (e :: es).filter (fun e => decide (e.1 ≥ G.T)) = e :: es.filter (fun e => decide (e.1 ≥ G.T)) :=
+        List.filter_cons_of_pos (by simpa using h)
+      rw [hd, List.map_cons, tuples, List.map_flatMap, sum_flatMap hS]
+      rw [List.map_cons, List.foldl_cons, hnt e (List.mem_cons_self ..) h, foldl_mul hS,
+        sum_mul_left hS, sum_mul_right hS, List.map_map, List.map_map]
+      congr 1
+      apply List.map_congr_left
+      intro d _
+      rw [List.map_map]
+      simp only [Function.comp_def, List.foldl_cons]
+      have : ∀ cs, stepFn S G n ρ (c, d :: cs) e =
+          (S.mul c (derivCell S G n d (e.2.map (fun v => ρ[v]?.getD 0))), cs) := by
+        intro cs; simp only [stepFn, h, if_false]
+      simp only [this]
+      rw [ih', foldl_mul hS]
+
+private theorem mem_assigns_idx (G : Grammar K) (nodes ρ att : List Nat)
+    (hρ : ρ ∈ assigns (G.shapeOf nodes)) (hatt : ∀ v ∈ att, v < nodes.length) :
+    att.map (fun v => ρ[v]?.getD 0) ∈ assigns (G.shapeOf (att.map (fun v => nodes[v]?.getD 0))) := by
+  rw [mem_assigns] at hρ ⊢
+  unfold Grammar.shapeOf at hρ ⊢
+  rw [List.map_map, List.forall₂_map_left_iff, List.forall₂_map_right_iff, List.forall₂_same]
+  intro v hv
+  have hv' := hatt v hv
+  rw [List.forall₂_map_right_iff] at hρ
+  have hlen := hρ.length_eq
+  have := List.Forall₂.get hρ (i := v) (by omega) hv'
+  simpa [List.getElem?_eq_getElem hv', List.getElem?_eq_getElem (show v < ρ.length by omega)] using this
+
+private theorem rule_lemma (S : SR K) (hS : SRLaws S) (G : Grammar K) (n : Nat) (r : Rule) (ri : Nat)
+    (hri : G.rules[ri]? = some r) (a : List Nat)
+    (hnt : ∀ ρ ∈ assigns (G.shapeOf r.nodes), ∀ e ∈ r.edges, ¬ e.1 < G.T →
+        edgeWeight S G (kleene S G n) e.1 (e.2.map (fun v => ρ[v]?.getD 0)) =
+        S.sum ((derivs G n (e.1 - G.T)).map
+          (fun d => derivCell S G n d (e.2.map (fun v => ρ[v]?.getD 0))))) :
+    S.sum ((tuples ((r.edges.filter (fun e => e.1 ≥ G.T)).map (fun e => derivs G n (e.1 - G.T)))).map
+      (fun cs => derivCell S G (n+1) (Deriv.mk ri cs) a)) = ruleCell S G (kleene S G n) r a := by
+  simp only [derivCell_succ, hri, Option.getD_some]
+  rw [sum_comm hS]
+  unfold ruleCell
+  congr 1
+  apply List.map_congr_left
+  intro ρ hρ
+  rw [core S hS G (kleene S G n) n ρ r.edges (hnt ρ (List.mem_filter.1 hρ).1)]
+  rfl
+
+/-- **Kleene iteration = sums over derivations of bounded depth** (any commutative semiring):
+`F^n(0)[X][a] = Σ_{d ∈ derivs X n} weight d a`, where the weight of a derivation is the sum over the
+assignments of its rule's nodes of the product of the terminal weights and the children's weights.
+
+`hty` is strengthened w.r.t. the first draft of this statement by the conjunct
+`∀ v ∈ e.2, v < r.nodes.length` (attachment nodes of every edge are node positions of the rule).
+Without it the statement is false: an out-of-range attachment node reads node label `0` and index `0`,
+and if `G.dom 0 = 0` the child's tensor is empty (cell = zero) while the derivation weight is not.
+Falsifying input (semiring ℕ with + and *), `n = 2`, `X = 0`, `a = []`:
+`G = ⟨nls := [], terms := [], nts := [[], [0]], start := 0,
+      rules := [⟨0, [], [], [(1, [3])]⟩, ⟨1, [], [7], []⟩], weights := []⟩`
+satisfies the original `hty`, `kleene 2 = [some [0], some []]` but `derivSum 2 0 = [1]`.
+
+Original hypothesis:
+```
+    (hty : ∀ r ∈ G.rules, r.lhs < G.nts.length ∧
+        G.shapeOf (r.ext.map (fun v => r.nodes[v]?.getD 0)) = G.shapeOf (G.nts[r.lhs]?.getD []) ∧
+        ∀ e ∈ r.edges, e.1 < G.T + G.nts.length ∧
+          (e.2.map (fun v => r.nodes[v]?.getD 0)) = G.labelType e.1)
+```
+-/
+theorem kleene_cell_eq_derivSum (S : SR K) (hS : SRLaws S) (G : Grammar K)
+    (hty : ∀ r ∈ G.rules, r.lhs < G.nts.length ∧
+        G.shapeOf (r.ext.map (fun v => r.nodes[v]?.getD 0)) = G.shapeOf (G.nts[r.lhs]?.getD []) ∧
+        ∀ e ∈ r.edges, e.1 < G.T + G.nts.length ∧
+          (e.2.map (fun v => r.nodes[v]?.getD 0)) = G.labelType e.1 ∧
+          ∀ v ∈ e.2, v < r.nodes.length)
+    (n X : Nat) (hX : X < G.nts.length) (a : List Nat) (ha : a ∈ assigns (G.shapeOf (G.nts[X]?.getD []))) :
+    valCell S G (kleene S G n) X a = S.sum ((derivs G n X).map (fun d => derivCell S G n d a)) := by
+  induction n generalizing X a with
+  | zero =>
+    simp [kleene, zeroVal, valCell, derivs, sum_nil', List.getElem?_replicate, hX]
+  | succ n ih =>
+    rw [kleene, F_cell S hS G _ X hX a ha]
+    · rw [derivs, List.map_flatMap, sum_flatMap hS]
+      have key : ∀ p ∈ G.rules.zipIdx.filter (fun p => p.1.lhs == X),
+          S.sum (List.map (fun d => derivCell S G (n + 1) d a)
+            (match p with
+              | (r, ri) =>
+                List.map (fun cs => Deriv.mk ri cs)
+                  (tuples (List.map (fun e => derivs G n (e.1 - G.T))
+                    (List.filter (fun e => decide (e.1 ≥ G.T)) r.edges))))) =
+          (fun r => ruleCell S G (kleene S G n) r a) p.1 := by
+        rintro ⟨r, ri⟩ hp
+        have hmem := (List.mem_filter.1 hp).1
+        have hri : G.rules[ri]? = some r := List.mk_mem_zipIdx_iff_getElem?.1 hmem
+        have hr : r ∈ G.rules := List.mem_of_getElem? hri
+        obtain ⟨_, _, hedges⟩ := hty r hr
+        simp only [List.map_map, Function.comp_def]
+        apply rule_lemma S hS G n r ri hri a
+        intro ρ hρ e he hT
+        obtain ⟨h1, h2, h3⟩ := hedges e he
+        rw [edgeWeight_nt S G _ _ _ hT]
+        apply ih (e.1 - G.T) (by omega)
+        have := mem_assigns_idx G r.nodes ρ e.2 hρ h3
+        rw [h2] at this
+        simpa [Grammar.labelType, hT] using this
+      rw [List.map_congr_left key]
+      have hfilt : (G.rules.zipIdx.filter (fun p => p.1.lhs == X)).map Prod.fst = G.rulesOf X := by
+        unfold Grammar.rulesOf
+        conv_rhs => rw [← List.zipIdx_map_fst 0 G.rules, List.filter_map]
+        rfl
+      rw [← hfilt, List.map_map]
+      rfl
+    · intro r hr
+      have := List.mem_filter.1 hr
+      obtain ⟨_, h2, _⟩ := hty r this.1
+      have hl : r.lhs = X := by simpa using this.2
+      rw [h2, hl]
+
+/-- the three executable semirings satisfy the laws on their carriers is C08; here: Bool, exactly -/
+theorem boolSR_laws : SRLaws boolSR := by
+  constructor <;> simp [boolSR]
+
+end C01
